@@ -312,6 +312,48 @@ func genC14(e *emitter, tier string, seed uint64) {
 	// the short "inscription" whose prefix is not a 25-byte P2PKH
 	ins(mustHex("76a90088ac0063036f726451015100015268"), "short-inscription")
 	ins(mustHex("76a9"+"14"+strings.Repeat("11", 20)+"88ac0063036f72645101510001526800"), "inscription-extra")
+	// inscriptions whose content type / payload / "ord" pushes use every push form (minimal or not), content types ending
+	// in bytes that look like push opcodes, tiny payloads: the parser re-walks the raw script next to the decoded parts
+	form := func(d []byte, k int) []byte {
+		switch k {
+		case 1:
+			return append([]byte{0x4c, byte(len(d))}, d...)
+		case 2:
+			return append([]byte{0x4d, byte(len(d)), byte(len(d) >> 8)}, d...)
+		case 3:
+			return append([]byte{0x4e, byte(len(d)), byte(len(d) >> 8), 0, 0}, d...)
+		}
+		return pushOf(d)
+	}
+	lastBytes := []byte{0x00, 0x4b, 0x4c, 0x4d, 0x4e, 0x4f, 0x51, 0x68, 'a'}
+	payloads := [][]byte{{}, {0x00}, {0x07}, {0x4e}, {1, 2}, {0x4d, 0, 0}, r.bytes(5), r.bytes(80)}
+	for fc := 0; fc < 4; fc++ {
+		for fp := 0; fp < 4; fp++ {
+			for _, lb := range lastBytes {
+				for pi, pl := range payloads {
+					if quick && (pi+int(lb)+fc+fp)%3 != 0 {
+						continue
+					}
+					for _, ctLen := range []int{1, 2, 9} {
+						ct := append(r.bytes(ctLen-1), lb)
+						s := tmplP2PKH(r)
+						s = append(s, 0x00, 0x63)
+						s = append(s, form([]byte("ord"), (fc+fp)%4*(pi%2))...)
+						s = append(s, 0x51)
+						s = append(s, form(ct, fc)...)
+						s = append(s, 0x00)
+						if len(pl) == 0 && fp == 0 {
+							s = append(s, 0x00)
+						} else {
+							s = append(s, form(pl, fp)...)
+						}
+						s = append(s, 0x68)
+						ins(s, "inscription-push-forms")
+					}
+				}
+			}
+		}
+	}
 	// (4) random strings
 	n := 2000
 	if !quick {
